@@ -557,10 +557,8 @@ fn class_of(e: &miniscript::Error) -> &'static str {
     }
 }
 
-pub fn run(args: &[String]) {
-    let seed: u64 = args.first().and_then(|s| s.parse().ok()).unwrap_or(1);
-    let n: u64 = args.get(1).and_then(|s| s.parse().ok()).unwrap_or(200);
-    let w = World::new();
+/// KEY / PRE lines of the engine's protocol (also used by `ext limits`)
+pub fn world_header(w: &World) -> String {
     let mut out = String::new();
     // world header
     for i in 0..N_KEYS {
@@ -592,6 +590,14 @@ pub fn run(args: &[String]) {
         )
         .unwrap();
     }
+    out
+}
+
+pub fn run(args: &[String]) {
+    let seed: u64 = args.first().and_then(|s| s.parse().ok()).unwrap_or(1);
+    let n: u64 = args.get(1).and_then(|s| s.parse().ok()).unwrap_or(200);
+    let w = World::new();
+    let out = world_header(&w);
     print!("{}", out);
     {
         let mut s = String::new();
@@ -800,7 +806,7 @@ pub fn key_masks(c: &Case, rng: &mut Rng) -> Vec<u32> {
     masks
 }
 
-fn emit_case(w: &World, c: &Case, env: &TxEnv, id: u64, sane: bool, rng: &mut Rng, out: &mut String) {
+pub fn emit_case(w: &World, c: &Case, env: &TxEnv, id: u64, sane: bool, rng: &mut Rng, out: &mut String) {
     let spk = c.desc.script_pubkey();
     let value = Amount::from_sat(100_000);
     let (tx, lock, seq) = spend_tx(env);
